@@ -519,6 +519,14 @@ func doCall(env *c13Env, c pcall, rec *hx.Rec) error {
 		}
 	case "ipaprove":
 		f := hx.FrSliceFromBig(polySpec{Kind: []string{"dense", "sparse", "onehot", "sparse"}[c.N%4], Seed: c.Seed, Idx: []int{c.K, (c.K + 100) & 255, 3}, Val: "7"}.evals())
+		// the polynomial is one row of a larger caller-owned array: the following row sits in its spare capacity
+		rows := make([]fr.Element, 512)
+		copy(rows, f)
+		for i := 256; i < 512; i++ {
+			rows[i] = hx.FrFromBig(big.NewInt(int64(1000 + i)))
+		}
+		nextRow := snapFr(rows[256:])
+		f = rows[:256]
 		s := snapFr(f)
 		comm := cfg.Commit(f)
 		commSnap := comm
@@ -529,6 +537,9 @@ func doCall(env *c13Env, c pcall, rec *hx.Rec) error {
 		}
 		if !sameFr(f, s) || comm != commSnap {
 			return fail("polynomial or commitment modified")
+		}
+		if !sameFr(rows[256:], nextRow) {
+			return fail("CreateIPAProof wrote behind the end of the polynomial slice it was given (the next row of the caller's array changed)")
 		}
 		env.lastIPA, env.lastIPAC, env.lastIPAZ = &proof, comm, z
 		zb := hx.FrToBig(&z)
